@@ -215,6 +215,8 @@ pub fn run_c07(tier: Tier) -> i32 {
                                 abandon_after: None,
                                 alphabet: 0,
                                 own_clients: false,
+                                client_mif: 0,
+                                zero_trace_id: false,
                             });
                         }
                     }
@@ -431,8 +433,8 @@ pub fn run_cfg(prop: HProp, cfg: &ChainCfg, prefix: &[u16], render_it: bool) -> 
                 let req = f.sent.get(&cs).and_then(|s| s.iter().find(|(_, m, _)| matches!(m, Msg::Req { .. })));
                 let Some((_, Msg::Req { id, tid, sid, sampled, .. }, _)) = req else { break };
                 nt = nt || hop > 0;
-                if *tid != 0xABCD || !*sampled {
-                    v("C18-hop-request-trace", format!("hop {hop}: request transmitted with trace id {tid:x} sampled {sampled}, the caller supplied abcd/true"));
+                if *tid != cfg.head_tid() || !*sampled {
+                    v("C18-hop-request-trace", format!("hop {hop}: request transmitted with trace id {tid:x} sampled {sampled}, the caller supplied {:x}/true", cfg.head_tid()));
                 }
                 if *sid == prev_sid {
                     v("C18-hop-span-not-fresh", format!("hop {hop}: request reuses span id {sid:x}"));
@@ -493,6 +495,8 @@ pub fn configs(prop: HProp, tier: Tier) -> Vec<ChainCfg> {
                                 abandon_after,
                                 alphabet: H_ABANDON | H_FINISH | H_REORDER,
                                 own_clients,
+                                client_mif: 0,
+                                zero_trace_id: false,
                             });
                         }
                     }
@@ -512,10 +516,31 @@ pub fn configs(prop: HProp, tier: Tier) -> Vec<ChainCfg> {
                 abandon_after,
                 alphabet: H_ABANDON | H_FINISH,
                 own_clients: false,
+                client_mif: 0,
+                zero_trace_id: false,
             };
             out.push(mk(None));
             for k in 0..=(if tier == Tier::Quick { 2 } else { 3 }) {
                 out.push(mk(Some(k)));
+            }
+        }
+    }
+    // the head caller is an untraced process: the all-zero trace id must travel like any other
+    if prop == HProp::C18 {
+        for depth in 1..=3usize {
+            for abandon_after in [None, Some(2)] {
+                out.push(ChainCfg {
+                    hops: vec![HopKind::Mem; depth],
+                    r_ns: 10_000_000_000,
+                    tau_ms: vec![0; depth],
+                    regime: Regime::NoSubscriber,
+                    last_finishes: abandon_after.is_none(),
+                    abandon_after,
+                    alphabet: H_ABANDON | H_FINISH,
+                    own_clients: false,
+                    client_mif: 0,
+                    zero_trace_id: true,
+                });
             }
         }
     }
@@ -534,6 +559,8 @@ pub fn configs(prop: HProp, tier: Tier) -> Vec<ChainCfg> {
                         abandon_after,
                         alphabet: H_ABANDON | H_FINISH | H_GATE,
                         own_clients: false,
+                        client_mif: 0,
+                        zero_trace_id: false,
                     });
                 }
             }
@@ -555,6 +582,22 @@ pub fn configs(prop: HProp, tier: Tier) -> Vec<ChainCfg> {
                         abandon_after,
                         alphabet: H_ABANDON | H_FINISH,
                         own_clients: true,
+                        client_mif: 0,
+                        zero_trace_id: false,
+                    });
+                    // the abandoned call fills its client's in-flight limit (seeded change C04d:
+                    // cancellations were held back while the client was at capacity)
+                    out.push(ChainCfg {
+                        hops: vec![HopKind::Mem; depth],
+                        r_ns: 10_000_000_000,
+                        tau_ms: vec![0; depth],
+                        regime: Regime::NoSubscriber,
+                        last_finishes,
+                        abandon_after,
+                        alphabet: H_ABANDON | H_FINISH,
+                        own_clients: false,
+                        client_mif: 1,
+                        zero_trace_id: false,
                     });
                 }
             }
@@ -571,6 +614,8 @@ pub fn configs(prop: HProp, tier: Tier) -> Vec<ChainCfg> {
             abandon_after: None,
             alphabet: H_ABANDON | H_FINISH | H_REORDER,
             own_clients: false,
+            client_mif: 0,
+            zero_trace_id: false,
         });
     }
     out
@@ -606,6 +651,8 @@ pub fn c18_otel_grid(tier: Tier) -> (u64, Vec<(String, String)>) {
                             abandon_after,
                             alphabet: 0,
                             own_clients: false,
+                            client_mif: 0,
+                            zero_trace_id: false,
                         };
                         let e = execute_in_place(&cfg, &[]);
                         cells += 1;
